@@ -149,7 +149,7 @@ class Protocol:
         ph, flag, sweep, all_ = entry
         st = self.m.mk_state(phase=ph, root_needs_trace=bool(flag), sweep=sweep, all_=all_,
                              objs={1: {"colour": "W"}})
-        st.mem[("arena",)] = adt("arena::Arena", 0, (ref(("ctx",), ()), ("sym", "root")))
+        st.mem[("arena",)] = gcmodel.arena_value(self.prog)
         self_ref = ref(("arena",), ())
         name = METHODS[method]
         if method == "start_sweeping":
